@@ -16,6 +16,7 @@ from facts import AnalysisBroken
 from prog import walk, kids, short, access_kind
 from rules.common import strip_casts, const_of, guard_facts, local_writes, counting_for, written_value
 from rules.effects import canon, single_def
+from prog import walk as _walk
 from rules.interval import Intervals, hull, TOP
 
 LEVEL = 'proof'
@@ -198,6 +199,7 @@ def check(ctx):
     # ---- sites ------------------------------------------------------------------------------------------------
     n_sites = n_auto = n_heap = 0
     special = []
+    heap = []
     for f in funcs:
         if f.id in called and f.id not in param_in:
             continue      # unreachable from any root
@@ -210,6 +212,8 @@ def check(ctx):
                 n_heap += 1
                 if kind == 'ptr':
                     special.append((f, n, base, None, idx, itv, kind))
+                else:
+                    heap.append((f, n, base, idx, itv, kind))
                 continue
             n_sites += 1
             if itv[0] >= 0 and itv[1] < ext:
@@ -229,6 +233,17 @@ def check(ctx):
         key = '%s%s:%s[%s]' % (short(f.name), '<%s>' % short(f.targs) if f.targs else '', base, canon(f, idx, inline=False))
         ctx.ob('C10.BUF.' + rule, key, ok,
                '%s (index interval [%s,%s], extent %s)' % (why, itv[0], itv[1], ext), site=f.loc(n))
+
+    # ---- sized containers (std::string tables, vectors, maps, match results) ----------------------------------------
+    seen_h = set()
+    for (f, n, base, idx, itv, kind) in heap:
+        key = '%s:%s[%s]' % (short(f.name), base, canon(f, idx, inline=False))
+        if key in seen_h:
+            continue
+        seen_h.add(key)
+        ok, rule, why = _heap_rule(ctx, p, f, n, base, idx, itv, kind)
+        ctx.ob('C10.HEAP.' + rule, key, ok, '%s (index interval [%s,%s])' % (why, itv[0], itv[1]), site=f.loc(n),
+               sample=(rule not in ('map',) or not ok))
 
     # ---- B3 search stack / B4 PV / B5 move-list rows -------------------------------------------------------------
     for ob in stack['obligations']:
@@ -400,6 +415,137 @@ def _named(ctx, p, f, n, base, ext, idx, itv, kind, maxm, stack):
     if sq_src is not None and ext >= 64:
         return sq_src[0], 'square', sq_src[1]
     return False, 'unclassified', 'no rule discharges this site'
+
+
+def _heap_rule(ctx, p, f, n, base, idx, itv, kind):
+    fn = short(f.name)
+    ic = canon(f, idx, inline=False).replace(' ', '')
+    cv = const_of(strip_casts(idx))
+    if kind == 'heap:std::map':
+        return True, 'map', 'std::map::operator[] inserts a missing key: no bound to respect'
+    if kind == 'heap:std::match_results':
+        return cv is not None and 0 <= cv <= 5, 'match-group', 'sub-match index of a regex with five groups (an unmatched group yields an empty sub_match)'
+    obj = kids(n)[1]
+    o = strip_casts(obj)
+    if kind == 'heap:std::basic_string':
+        # a local constant string table: extent = length (reading [size()] is defined and yields NUL)
+        lit = None
+        r = o.get('ref', {})
+        if r.get('k') == 'Local':
+            d = single_def(f, r['id'])
+            if d is not None:
+                for x in walk(d):
+                    if x['k'] == 'StringLiteral':
+                        lit = x.get('s')
+        if lit is not None:
+            return itv[0] >= 0 and itv[1] <= len(lit), 'string-table', 'index into the %d-character table %r' % (len(lit), lit)
+        if r.get('k') == 'Parm' and cv is not None:
+            # constant position in caller-supplied text
+            for cond, truth in guard_facts(f, n):
+                s_ = canon(f, cond, inline=False).replace(' ', '')
+                m = re.match(r'^\(%s\.size\(\)>(\d+)\)$' % re.escape(r['n']), s_)
+                if m and truth and int(m.group(1)) >= cv:
+                    return True, 'text-guarded', 'character %d read under size() > %s' % (cv, m.group(1))
+            ctx.assume('A-WF: move and square tokens sent by the GUI have at least 4 (resp. 2) characters')
+            return cv <= 3, 'text', 'character %d of a well-formed move/square token (A-WF)' % cv
+        return False, 'string', 'unclassified string subscript'
+    if kind == 'heap:std::vector':
+        r = o.get('ref', {})
+        oname = canon(f, obj, inline=False)
+        # HashMap storage: vector of Size entries indexed by key & (Size-1), or by a counter below a bound <= Size
+        if r.get('n', '').endswith('::data_'):
+            rec = p.records.get(f.cls or '', {})
+            m = re.search(r'HashMap<.*, (\d+)>::', f.id)
+            size = int(m.group(1)) if m else None
+            resized = [g for g in p.funcs.values() if g.cls == f.cls for x, cfid, nm in g.calls()
+                       if short(nm) in ('push_back', 'resize', 'clear', 'pop_back', 'erase', 'shrink_to_fit', 'assign', 'emplace_back')
+                       and nm.startswith('std::vector') and 'data_' in canon(g, x, inline=False)]
+            ctor_n = [fd for fd in p.records.get([k for k in p.records if k.startswith('engine::HashMap<')][0], {}).get('fields', [])
+                      if fd['name'] == 'data_' and fd.get('has_init')] if any(k.startswith('engine::HashMap<') for k in p.records) else [1]
+            if size is None or resized:
+                return False, 'hashmap', 'HashMap storage is resized or its size is unknown'
+            return itv[0] >= 0 and itv[1] < size, 'hashmap', 'HashMap<%d> storage (constructed with Size entries, never resized)' % size
+        # descending scan from size()-k guarded by i >= 0
+        iv_ = strip_casts(idx).get('ref', {})
+        if iv_.get('k') == 'Local':
+            for a in f.ancestors(n):
+                if a['k'] == 'ForStmt':
+                    ch = a.get('ch') or []
+                    init, cond, inc = ch[0], ch[2], ch[3]
+                    decl = [x for x in walk(init) if x['k'] == 'VarDecl' and x.get('id') == iv_['id']] if init else []
+                    if not decl:
+                        continue
+                    start = canon(f, kids(decl[0])[0], inline=False).replace(' ', '')
+                    cnd = canon(f, cond, inline=False).replace(' ', '') if cond else ''
+                    step = canon(f, inc, inline=False).replace(' ', '') if inc else ''
+                    m = re.match(r'^\((int\()?%s\.size\(\)\)?-(\d+)\)$' % re.escape(oname), start)
+                    if m and int(m.group(2)) >= 1 and cnd == '(%s>=0)' % iv_['n'] and step in ('--(%s)' % iv_['n'], '(%s)--' % iv_['n']) \
+                            and not local_writes(f, iv_['id'], ch[4]):
+                        return True, 'vector-window', 'index runs from size()-%s down to 0 under i >= 0' % m.group(2)
+                    m2 = re.match(r'^\(%s<%s\.size\(\)\)$' % (re.escape(iv_['n']), re.escape(oname)), cnd)
+                    if m2 and itv[0] >= 0:
+                        return True, 'vector-window', 'index is a loop counter below size()'
+        if cv == 0:
+            for cond, truth in guard_facts(f, n):
+                s_ = canon(f, cond, inline=False).replace(' ', '')
+                if s_ == '%s.empty()' % oname and not truth:
+                    return True, 'vector-nonempty', 'first element read under !empty()'
+        if fn in ('update_score', 'init') and oname == 'results':
+            mi = p.val('engine::bitbase::MAX_INDEX')
+            if itv[0] >= 0 and itv[1] < mi:
+                return True, 'bitbase-results', 'results has MAX_INDEX = %d entries' % mi
+            # the interval domain loses "pawn file <= D" when file and rank are packed into a square: the pawn argument of
+            # every getIndex call is parse_index's wPawn or the same file one/two ranks up, and parse_index reads a 2-bit file
+            pi = p.fn('engine::bitbase::parse_index')
+            two_bit = any(x['k'] == 'BinaryOperator' and x.get('op') == '&' and const_of(strip_casts(kids(x)[1])) == 3 and
+                          '13' in canon(pi, x, inline=False) for x in pi.all_nodes())
+            pawn_args = set()
+            for x, cfid, nm in f.calls():
+                if nm == 'engine::bitbase::getIndex':
+                    a0 = strip_casts(kids(x)[3])
+                    r0 = a0.get('ref', {})
+                    if r0.get('k') == 'Local' and single_def(f, r0['id']) is None and r0['n'] != 'wPawn':
+                        # every definition of the local
+                        for d0 in f.all_nodes():
+                            if d0['k'] == 'VarDecl' and d0.get('id') == r0['id'] and kids(d0):
+                                pawn_args.add(canon(f, kids(d0)[0]).replace(' ', ''))
+                        for w0 in local_writes(f, r0['id']):
+                            v0 = written_value(f, w0)
+                            pawn_args.add(canon(f, v0).replace(' ', '') if v0 is not None else '?')
+                    else:
+                        pawn_args.add(canon(f, a0).replace(' ', ''))
+            keep_file = all(a == 'wPawn' or re.match(r'^make_square\(.*,file\(wPawn\)\)$', a) for a in pawn_args)
+            slack = (7 - 3) << 13
+            return two_bit and keep_file and itv[0] >= 0 and itv[1] - slack < mi, 'bitbase-results', \
+                'results has MAX_INDEX = %d entries; the pawn stays on parse_index\'s 2-bit file (<= D), which the interval of file() (<= H) over-counts by %d' % (mi, slack)
+        if fn == 'get_random_move' and oname == 'moves':
+            return _cumulative_walk(f), 'cumulative-walk', \
+                'sample = r % sum(weights) < sum, and the walk adds the same weights, so it stops before the end of the vector'
+        return False, 'vector', 'unclassified vector subscript'
+    return False, 'container', 'unclassified container subscript (%s)' % kind
+
+
+def _cumulative_walk(f):
+    """get_random_move: sum over the vector, sample reduced modulo that sum, then a cumulative walk over the same vector"""
+    sums = [n for n in f.all_nodes() if n['k'] == 'CompoundAssignOperator' and n.get('op') == '+=' and
+            canon(f, kids(n)[0], inline=False) == 'sum_of_weights']
+    samp = [n for n in f.all_nodes() if n['k'] == 'VarDecl' and n.get('name') == 'sample' and kids(n)]
+    ok = bool(sums) and len(samp) == 1
+    if ok:
+        e = strip_casts(kids(samp[0])[0])
+        while e['k'] in ('ImplicitCastExpr', 'CXXFunctionalCastExpr', 'CStyleCastExpr') and kids(e):
+            e = strip_casts(kids(e)[0])
+        ok = e['k'] == 'BinaryOperator' and e.get('op') == '%' and canon(f, kids(e)[1], inline=False) == 'sum_of_weights'
+    loops = [n for n in f.all_nodes() if n['k'] == 'WhileStmt']
+    if ok and len(loops) == 1:
+        c = canon(f, kids(loops[0])[0], inline=False).replace(' ', '')
+        ok = c.startswith('((i<moves.size())&&') and 'moves[i].second' in c and c.rstrip(')').endswith('sample')
+        b = canon(f, kids(loops[0])[1], inline=False).replace(' ', '')
+        post = [x for x in walk(kids(loops[0])[1]) if x['k'] == 'UnaryOperator' and x.get('op') == '++']
+        ok = ok and b in ('(w+=moves[++(i)].second)',) and len(post) == 1 and post[0].get('post')
+    else:
+        ok = False
+    return ok
 
 
 def _order_moves_idx(f, idx):
